@@ -346,10 +346,10 @@ Definition method_bodies : bodies :=
 
 (** the ordering claim, executable: walking a method body, an external equation is only met when each of its wanted
     dependencies has been emitted earlier in the body (itself or, for an NLA system, one of its siblings) or was no
-    longer in remainingEquations when the method started ([pre]) *)
-Definition covered (pre : list nat) (done : list nat) (d : nat) : bool :=
-  negb (mem_nat d pre) || mem_nat d done.
-Fixpoint ordered_from (icc : bool) (efd pre done : list nat) (code : list nat) : bool :=
+    longer in remainingEquations when the method started ([rem0] = remainingEquations at that moment) *)
+Definition covered (rem0 : list nat) (done : list nat) (d : nat) : bool :=
+  negb (mem_nat d rem0) || mem_nat d done.
+Fixpoint ordered_from (icc : bool) (efd rem0 done : list nat) (code : list nat) : bool :=
   match code with
   | [] => true
   | p :: rest =>
@@ -358,16 +358,18 @@ Fixpoint ordered_from (icc : bool) (efd pre done : list nat) (code : list nat) :
       | Some e =>
           (if qtype_eqb (ae_type e) QExternal
            then forallb (fun d => match find_aeq r d with
-                                  | Some de => negb (dep_wanted icc efd de) || covered pre done d
+                                  | Some de => negb (dep_wanted icc efd de) || covered rem0 done d
                                   | None => true end) (ae_deps e)
            else true)
-          && ordered_from icc efd pre (done ++ p :: ae_sibs e) rest
+          && ordered_from icc efd rem0 (done ++ p :: ae_sibs e) rest
       end
   end.
 Definition eq_positions (l : list stmt) : list nat := filter_map (fun x => match x with SEq p => Some p | _ => None end) l.
 
-(* an acyclic dependency graph: a rank that decreases along every dependency edge *)
+(** an acyclic dependency graph: a rank that decreases along every dependency edge the generator may follow (it never
+    follows a dependency on an ODE: states are inputs) and is constant on the equations of an NLA system *)
 Definition acyclic_by (rank : nat -> nat) : Prop :=
-  forall e d, In e (r_eqs r) -> In d (ae_deps e) -> rank d < rank (ae_pos e).
+  (forall e d de, In e (r_eqs r) -> In d (ae_deps e) -> find_aeq r d = Some de -> ae_type de <> QOde -> rank d < rank (ae_pos e)) /\
+  (forall e sib, In e (r_eqs r) -> In sib (ae_sibs e) -> rank sib = rank (ae_pos e)).
 
 End Emission.
